@@ -5,7 +5,8 @@ Generator : 1-4 parents whose inner collection is p.kids (lists of 0-3 entities,
             single element); e = flatten(inner); selection in {entity(e), [e], [p, e], [e, p]}; extra condition in {none,
             on e, on p, on both, join of e with a third variable}.
 Oracle    : rows = [(p, x) for p in parents for x in inner(p) if cond(p, x[, z])]: multiset equality when p and e are both
-            selected; for [e] / entity(e) the multiset of x (one row per element under every binding).
+            selected; for [e] / entity(e) the multiset of x (one row per element under every binding).  Only the identical
+            rows produced by an element that ONE inner collection lists twice may be delivered once or once per occurrence.
 """
 from __future__ import annotations
 
@@ -41,7 +42,7 @@ def _case(draw, tier):
     P = PROFILES[cfg.profile]
     recs = draw_dataset(draw, cfg)
     n = len(recs)
-    inner = draw(st.sampled_from(["kids", "kids", "kids", "tags", "a"]))
+    inner = draw(st.sampled_from(["kids", "kids", "kids", "tags", "a", "s"]))
     if inner == "kids" and chance(draw, 1, 4):
         # make one list repeat an element
         r = recs[draw(st.integers(0, n - 1))]
@@ -68,12 +69,15 @@ def _case(draw, tier):
             if k == "is_big":
                 return ["truth", ["call", E, "is_big", []]]
             return ["cmp", draw(st.sampled_from(["==", "!="])), E, ["var", 0]]
+        if inner == "s":
+            return ["cmp", draw(st.sampled_from(["==", "!=", "<"])), E, ["const", draw(st.sampled_from(P["strs"]))]]
         return ["cmp", draw(st.sampled_from(CMP_OPS)), E, ["const", draw(st.sampled_from(P["ints"]))]]
 
     def cond_on_p():
         return leaf(draw, ctx, [0])
 
-    kind = draw(st.sampled_from(["none", "none", "on_e", "on_e", "on_p", "both"] + (["third"] * 6 if third else [])))
+    kind = draw(st.sampled_from(["none", "none", "on_e", "on_e", "on_p", "both", "or", "or", "not_and"]
+                                + (["third"] * 6 if third else [])))
     if kind == "none":
         cond = None
     elif kind == "on_e":
@@ -82,12 +86,17 @@ def _case(draw, tier):
         cond = cond_on_p()
     elif kind == "both":
         cond = ["and", "nary", [cond_on_e(), cond_on_p()] if draw(st.booleans()) else [cond_on_p(), cond_on_e()]]
+    elif kind in ("or", "not_and"):
+        # disjunctions (also as a negated conjunction) mixing conditions on the parent and on the flattened element
+        parts = draw(st.sampled_from([[cond_on_p(), cond_on_e()], [cond_on_e(), cond_on_p()], [cond_on_e(), cond_on_e()]]))
+        cond = ["or", draw(st.sampled_from(["nary", "binl"])), parts] if kind == "or" else \
+            ["not", "not_", ["and", "nary", parts]]
     else:
         if ent_elem:
             j = draw(st.sampled_from([["cmp", "==", E, ["var", 2]], ["cmp", "!=", E, ["var", 2]],
                                       ["cmp", "<", ["attr", E, "a"], ["attr", ["var", 2], "a"]]]))
         else:
-            j = ["cmp", draw(st.sampled_from(CMP_OPS)), E, ["attr", ["var", 2], "a"]]
+            j = ["cmp", draw(st.sampled_from(CMP_OPS)), E, ["attr", ["var", 2], "s" if inner == "s" else "a"]]
         cond = j
     if third and kind != "third":
         doms.pop()
@@ -115,13 +124,13 @@ def check(case) -> Outcome:
     third = doms[1] if len(doms) > 1 else [None]
     cond = case["cond"]
     sel = case["select"]
-    expected = []
+    expected = []          # one entry per (parent, position in its inner collection, third value) that qualifies
     for p in parents:
         for x in _inner(p, case["inner"]):
             for z in third:
                 env = {0: p, 1: x, 2: z}
                 if cond is None or A.eval_cond(cond, env):
-                    expected.append((p, x))
+                    expected.append((p, x, z))
     inners = [tuple(map(id, _inner(p, case["inner"]))) for p in parents]
     nonempty = [i for i in inners if i]
     nontrivial = len(parents) >= 2 and len(set(nonempty)) >= 2
@@ -164,22 +173,29 @@ def check(case) -> Outcome:
     except Exception as ex:
         return fail("exception", f"{type(ex).__name__}: {ex}; expected {show_rows(expected)}", nontrivial=nontrivial,
                     classes=classes, features=feats)
-    if sel in ("entity_e", "e"):
-        exp = Counter(ident((x,)) for _, x in expected)
-        g = Counter(ident((x,)) for _, x in got)
+    # Row key as selected; every DISTINCT assignment (parent, element, third value) must produce its own row.  An element
+    # that one inner collection lists twice yields the same assignment twice: those identical rows may be delivered once
+    # or once per occurrence (they are not distinguishable assignments), so for them a range of counts is accepted.
+    def key(p_, x_):
+        return ident((x_,)) if sel in ("entity_e", "e") else ident((p_, x_))
+    upper = Counter(key(p_, x_) for p_, x_, _ in expected)
+    lower = Counter(key(p_, x_) for p_, x_, _ in {(id(a), id(b), id(c)): (a, b, c) for a, b, c in expected}.values())
+    if len(third) > 1 or third[0] is not None:
+        # the third variable is not selected: the row count under projection is not asserted (cf. C02)
+        lower = Counter({k: 1 for k in lower})
+    g = Counter(key(p_, x_) for p_, x_ in got)
+    show_exp = [(a, b) for a, b, _ in expected]
+    if set(upper) - set(g):
+        bad_kind = "missing_rows"
+    elif set(g) - set(upper):
+        bad_kind = "extra_rows"
+    elif any(not (lower[k] <= g[k] <= upper[k]) for k in upper):
+        bad_kind = "wrong_multiplicity"
     else:
-        exp = Counter(ident(r) for r in expected)
-        g = Counter(ident(r) for r in got)
-    if exp != g:
-        missing, extra = exp - g, g - exp
-        if set(exp) - set(g):
-            kind = "missing_rows"
-        elif set(g) - set(exp):
-            kind = "extra_rows"
-        else:
-            kind = "wrong_multiplicity"
-        return fail(kind, f"select {sel}, inner {case['inner']}, cond {A.r_cond(cond) if cond else None}: expected "
-                          f"{show_rows(expected)} got {show_rows(got)}", nontrivial=nontrivial, classes=classes,
+        bad_kind = None
+    if bad_kind:
+        return fail(bad_kind, f"select {sel}, inner {case['inner']}, cond {A.r_cond(cond) if cond else None}: expected "
+                              f"{show_rows(show_exp)} got {show_rows(got)}", nontrivial=nontrivial, classes=classes,
                     features=feats)
     return Outcome(True, nontrivial=nontrivial, classes=classes, features=feats)
 
